@@ -68,7 +68,7 @@ pub fn replay(j: &Value, backend: &str) -> Value {
     for script in j["scripts"].as_array().expect("scripts") {
         // each script runs on a fresh store of the chosen REAL backend
         let tmp = tempfile::TempDir::new().expect("temp dir");
-        let storage: Box<dyn Storage> = if backend == "sqlite" {
+        let mut storage: Box<dyn Storage> = if backend == "sqlite" {
             Box::new(taskchampion_sync_server_storage_sqlite::SqliteStorage::new(tmp.path()).expect("open sqlite"))
         } else {
             Box::new(InMemoryStorage::new())
@@ -76,6 +76,11 @@ pub fn replay(j: &Value, backend: &str) -> Value {
         let mut steps = Vec::new();
         for step in script["steps"].as_array().expect("steps") {
             let client = id(&step["client"]);
+            if backend == "sqlite" && step["reopen"].as_bool() == Some(true) {
+                // "the server was restarted here": close the database and open the directory again
+                drop(storage);
+                storage = Box::new(taskchampion_sync_server_storage_sqlite::SqliteStorage::new(tmp.path()).expect("reopen sqlite"));
+            }
             let r = panic::catch_unwind(AssertUnwindSafe(|| {
                 let mut res = Vec::new();
                 match storage.txn(client) {
